@@ -211,6 +211,8 @@ func RunGradient(f interface{}, x0 ConstVector, args ...interface{}) (ConstVecto
     switch a := arg.(type) {
     case Hook:
       hook = a
+    case StepSize:
+      step_size = a
     case Beta1:
       beta1 = a
     case Beta2:
